@@ -753,6 +753,14 @@ def gen_stateful(rng, tier, out):
                     'via_loop': rng.random() < 0.3, 'repeat': [0] if rng.random() < 0.5 else [], 'dup': True})
 
 
+def gen_sample_empty(rng, tier, out):
+    """a ProgramEntry without waveforms (coverage-driven, round 4): holds no samples; get_sample_times on the empty list fails"""
+    for chans, markers in (([], []), ([None], [None]), ([{'ch': 'A', 'T': None, 'amp': '1', 'off': '0'}], ['A']),
+                           ([{'ch': 'A', 'T': ['aff', '2', '1'], 'amp': '2', 'off': '1/2'}, None], [None, 'M'])):
+        out.append({'kind': 'sample', 'rate': fs(rng.choice([F(1), F(3), F(9, 5)])), 'chans': chans, 'markers': markers,
+                    'wfs': [], 'via_loop': False, 'repeat': [], 'rat': True})
+
+
 def gen_cases(rng, tier, ctx):
     out = []
     gen_stateful(rng, tier, out)
@@ -768,6 +776,7 @@ def gen_cases(rng, tier, ctx):
     gen_sample(rng, tier, out)
     gen_times_np2(rng, tier, out)
     gen_sample_np2(rng, tier, out)
+    gen_sample_empty(rng, tier, out)
     drng = __import__('random').Random(rng.getrandbits(64))
     out = [decorate(drng, c) for c in out]
     drng.shuffle(out)       # the Coq shards are contiguous slices: mix the kinds so that no shard gets all the big literals
